@@ -221,6 +221,11 @@ def check_C19(run):
 
 def check_C18(run):
     run.model("MC_Time", "MC_Time_parse_thorough" if run.thorough() else "MC_Time_parse_quick")
+    # the zone cache seen from an application that holds parsed times (time/parse.go: tzMap, add-only)
+    run.model("ZoneCache")
+    v = V.run_tlc(run.scratch, "ZoneCache", "ZoneCache_defect", workers=4, timeout=600)
+    if "Invariant HeldStable is violated" not in v["out"]:
+        raise V.Infra("vacuity check failed: the ZoneCache model keeps held times stable although zone objects are overwritten in place")
     out, meta = run.drive("C18")
     total, rejected, states, _ = V.judge(run.scratch, "Trace_Codec", out)
     # the same driver in a process whose local zone has daylight saving: what a timestamp parses to does not depend on it
